@@ -2,7 +2,8 @@
 // the deterministic scheduler, with a harness Executor whose submit is refused according to a fault list.
 // stdin lines:  <case-id> <sched-seed> <strategy> <capacity> <mode> <faults> <program>
 //   mode    I = inline executor (the launching producer becomes the consumer), A = asynchronous (one new thread
-//           per accepted launch)
+//           per accepted launch); a trailing 's' (As / Is) makes the consume function slow: it sleeps 2.5 ms of virtual
+//           time per item (longer than join()'s 1 ms polling period)
 //   faults  string over {0,1}, one character per submit attempt in global order, 1 = refuse; "-" = none; attempts
 //           beyond the string are accepted
 //   program threads separated by '|', ops separated by ',':
@@ -43,7 +44,7 @@ struct World {
   ConcurrentExecutionQueue<uint64_t> q;
   std::vector<std::vector<Op>> threads;
   std::string faults; size_t attempts = 0;
-  bool async = false;
+  bool async = false, slow = false;
   // ghost state (only one registered thread runs at a time: plain variables)
   int live = 0;            // accepted launches whose consume_until_empty has not returned
   int depth = 0;           // consume callback nesting
@@ -130,7 +131,7 @@ int main(int argc, char** argv) {
     }
     size_t nt = w->threads.size();
     w->faults = strcmp(faults, "-") == 0 ? "" : faults;
-    w->async = mode[0] == 'A';
+    w->async = mode[0] == 'A'; w->slow = mode[1] == 's';
     w->in_exec.assign(nt, 0);
     { size_t nsig = 0; for (auto& th : w->threads) nsig += th.size(); w->spawned.assign(nsig + 1, nullptr); }
     w->consumed.resize(nt); w->returned.resize(nt); w->ret_stamp.resize(nt);
@@ -147,7 +148,7 @@ int main(int argc, char** argv) {
         if ((long)i <= last_seq[t]) order_ok = false;
         last_seq[t] = (long)i;
         w->order.push_back({(int)t, (int)i});
-        sched_yield();                                   // scheduling point inside the callback
+        if (w->slow) usleep(2500); else sched_yield();   // scheduling point inside the callback
       }
       if (w->depth != 1) w->single = false;
       --w->depth;                                        // exit marker
@@ -173,7 +174,7 @@ int main(int argc, char** argv) {
             case 'J': {
               w->q.join();
               size_t strong = w->missing(0), weak = w->missing(op.b);
-              if (weak != 0 && !w->stale) { if (w->ticket_gap()) { w->gap_ok = false; ++w->gaps; } else w->join_ok = false; }
+              if (weak != 0 && !w->stale) { if (w->live == 0 && w->depth == 0 && w->ticket_gap()) { w->gap_ok = false; ++w->gaps; } else w->join_ok = false; }
               op.res = "J" + std::to_string(strong);
             } break;
           }
